@@ -588,10 +588,10 @@ impl GenCfg {
                 gv: None,
             });
         }
-        if self.ns >= 4 {
-            // a fourth stream: legal in the container, ignored by the engine (which reads spectrum, F0 and low-pass)
+        for extra in 3..self.ns {
+            // a fourth (fifth, …) stream: legal in the container, ignored by the engine (which reads spectrum, F0 and low-pass)
             streams.push(StreamSpec {
-                name: "AUX".into(),
+                name: if extra == 3 { "AUX".into() } else { format!("AUX{}", extra) },
                 vlen: 2,
                 is_msd: false,
                 use_gv: false,
